@@ -41,14 +41,18 @@ func (k Keeper) DivvyingTips(ctx context.Context, reporterAddr sdk.AccAddress, r
 		return err
 	}
 
+	// the commission is credited to the reporter exactly once, with the first of its own token origins
+	// (a reporter bonded with several validators has one origin per validator)
+	commissionPaid := false
 	for _, del := range delAddrs.TokenOrigins {
 		// delegator share = netReward * selector's share / total shares
 		delAmountDec := del.Amount.ToLegacyDec()
 		delTotalDec := delAddrs.Total.ToLegacyDec()
 		delegatorShare := netReward.Mul(delAmountDec).Quo(delTotalDec)
 
-		if bytes.Equal(del.DelegatorAddress, reporterAddr.Bytes()) {
+		if !commissionPaid && bytes.Equal(del.DelegatorAddress, reporterAddr.Bytes()) {
 			delegatorShare = delegatorShare.Add(commission)
+			commissionPaid = true
 		}
 		// get selector's previous tips
 		oldTips, err := k.SelectorTips.Get(ctx, del.DelegatorAddress)
